@@ -194,8 +194,10 @@ impl RK23 {
             }
 
             // Check for last step adjustment
+            let mut last = false;
             if (x + h - xend) * posneg > 0.0 {
                 h = xend - x;
+                last = true;
             }
 
             // Stage 2
@@ -293,8 +295,8 @@ impl RK23 {
                     h = hmax * posneg;
                 }
 
-                // Normal exit
-                if x == xend {
+                // Normal exit (the landing step may miss xend by a rounding error; do not step again)
+                if last || x == xend {
                     break;
                 }
             } else {
